@@ -138,7 +138,8 @@ def check(ctx):
         "stored true only after GlobalCollector::start and read un-negated; R5 'no local parent' is a state the stack really returns "
         "to: releasing a scope pops it on every path, and the six local operations act only across span_lines.last_mut() = Some.")
     ctx.explanation += (" R6 the scope bundle (C10's rules): scopes opened on every path and refused only when the stack is full, released "
-                        "scopes popped with nothing left behind, the stack looked at from its top only and the only per-thread context.")
+                        "scopes popped with nothing left behind, the stack looked at from its top only and the only per-thread context. R7 library code opens no token-less (recording) scope: nothing "
+                        "calls LocalCollector::start(), and only start() builds a LocalCollector from None.")
     ctx.not_decided = "thread count at run time; 'nothing is delivered' for all call sequences beyond reachability."
     # ------------------------------------------------------------------ config D
     D = ctx.facts("D")
@@ -252,6 +253,33 @@ def check(ctx):
     # what "the local parent in effect" needs from the scope stack (see props/common.py)
     from .common import scope_bundle
     scope_bundle(ctx, ctx.facts("E"), "R6")
+    # R7: a scope without a collect token is a *recording* scope (it is what LocalCollector::start() hands to a caller who wants the
+    # spans back). The library opens one for nobody but that caller: no library code calls LocalCollector::start(), and only start()
+    # builds a LocalCollector from `None`. (A tokenless scope opened around the poll of a future bound to a no-op span makes every
+    # local operation inside it record and run its property closures, with nobody to receive them.)
+    Ef = ctx.facts("E")
+    bad, n_new = [], 0
+    for p_, g in Ef.fns.items():
+        if g.crate not in ("fastrace", "fastrace_futures"):
+            continue
+        for b in g.calls_re(r"local::local_collector::LocalCollector::(start|new)$", cleanup=False):
+            t = g.term(b)
+            if t["callee"].endswith("::start"):
+                bad.append((p_, g.loc(b), "LocalCollector::start()"))
+                continue
+            n_new += 1
+            a0 = t["args"][0] if t["args"] else None
+            is_none = False
+            if a0 is not None and a0["k"] in ("copy", "move") and not a0["p"]:
+                sd = g.single_def(a0["l"])
+                is_none = bool(sd) and sd[1] != "term" and sd[2]["k"] == "assign" and sd[2]["rv"]["k"] == "agg" and sd[2]["rv"].get("variant") == "None"
+            elif a0 is not None and a0["k"] == "const":
+                is_none = "None" in str(a0.get("v", a0.get("text", "")))
+            if is_none and not re.search(r"LocalCollector::start(::\{closure#\d+\})*$", p_):
+                bad.append((p_, g.loc(b), "LocalCollector::new(None, ..)"))
+    ctx.check(not bad and n_new >= 2, "R7", "fastrace::local::local_collector::LocalCollector", "-",
+              "the library opens no token-less (recording) scope of its own: nothing calls LocalCollector::start(), only start() builds a collector from None",
+              "%d LocalCollector::new sites" % n_new, "token-less scopes opened by library code: %s (new sites found: %d)" % (bad, n_new), extra="tokenless")
 
 
 def rule_not_recording(ctx, E, prov):
